@@ -21,6 +21,8 @@ Act == \/ Ev.e = "enq"  /\ Enqueue(Ev.c)
        \/ Ev.e = "ncp"  /\ Complete(Ev.c, Ev.n)
        \/ Ev.e = "ncpu" /\ UNCHANGED vars          \* completion for a handle without a connection
        \/ Ev.e = "disc" /\ Flush(Ev.c)
+       \* disconnection during whose notification the listeners submitted Ev.n packets on Ev.c
+       \/ Ev.e = "discn" /\ \E j \in 0..Ev.n : FlushNotified(Ev.c, Ev.n, j)
 
 Step == /\ l <= Len(T)
         /\ Act
